@@ -25,5 +25,6 @@ Definition run (c : sx) : sx :=
   | L [A 31; arg] => run_wq_between arg
   | L [A 32; arg] => run_wother true arg
   | L [A 33; arg] => run_wother false arg
+  | L [A 34; arg] => run_wassert_applies arg
   | _ => sx_err
   end.
